@@ -40,6 +40,7 @@ def run(ctx, obs):
     purity(ctx, obs)
     codec(ctx, obs)
     loaders(ctx, obs)
+    numbered_keys(ctx, obs)
 
 
 def tables(ctx, obs):
@@ -193,6 +194,26 @@ def overwrite(ctx, obs, rule='OVERWRITE'):
     obs.check(guard is not None and guard < open_pos, rule, q, 'an existing path raises before the file is opened',
               'no existence test that raises dominates File(...): an existing HDF5 file is appended to / silently replaced', '',
               where(prog, f, opens[0].node))
+    # open mode: the str-only existence test does not cover other path-likes (pathlib.Path); for those the refusal rests on
+    # the non-truncating open mode (h5py 'a' fails on existing names, 'x'/'w-' fail on existing files) - 'w' truncates
+    on = opens[0].node
+    mode = on.args[1] if len(on.args) > 1 else next((k.value for k in on.keywords if k.arg == 'mode'), None)
+    if guard is not None:
+        g = f.node.body[guard]
+        str_only = any(isinstance(c, ast.Call) and _leaf(c.func) == 'isinstance' and len(c.args) == 2
+                       and isinstance(c.args[1], ast.Name) and c.args[1].id == 'str' for c in ast.walk(g.test))
+        if isinstance(mode, ast.Constant) and mode.value in ('a', 'x', 'w-', 'r+'):
+            obs.ok(rule, q, 'the file is opened in a mode that cannot truncate an existing file', f'mode {mode.value!r}', where(prog, f, on))
+        elif isinstance(mode, ast.Constant) and mode.value == 'w' and str_only:
+            obs.bad(rule, q, 'the file is opened in a mode that cannot truncate an existing file',
+                    f"`{norm(on)}` truncates, and the existence test `{norm(g.test)}` only covers str targets: an existing file "
+                    f"given as pathlib.Path is silently replaced although overwrite was not requested", where(prog, f, on))
+        elif isinstance(mode, ast.Constant) and mode.value == 'w':
+            obs.ok(rule, q, 'the file is opened in a mode that cannot truncate an existing file',
+                   "mode 'w' behind an existence test that covers every path type", where(prog, f, on))
+        else:
+            obs.unk(rule, q, 'the file is opened in a mode that cannot truncate an existing file',
+                    f'mode `{norm(mode) if mode is not None else None}` not recognised', where(prog, f, on))
     for q in SAVERS:
         f = prog.func(q)
         r = ctx.dep.result(q)
@@ -329,3 +350,69 @@ def loaders(ctx, obs, rule='EXH-class'):
                 continue
             obs.check(bool(t.orelse) and isinstance(t.orelse[-1], ast.Raise), rule, q, 'an unknown file type is rejected',
                       'no raising else-arm', '', where(prog, f, t))
+
+
+def _fmt_prefix(e):
+    """'model_%d' % i / f'model_{i}' / 'model_{}'.format(i)  ->  ('model_', padded?)"""
+    if isinstance(e, ast.BinOp) and isinstance(e.op, ast.Mod) and isinstance(e.left, ast.Constant) and isinstance(e.left.value, str):
+        t = e.left.value
+        if '%d' in t or '%i' in t:
+            return t.split('%')[0], False
+        if '%0' in t:
+            return t.split('%')[0], True
+    if isinstance(e, ast.JoinedStr) and e.values and isinstance(e.values[0], ast.Constant) and any(isinstance(v, ast.FormattedValue) for v in e.values):
+        fv = [v for v in e.values if isinstance(v, ast.FormattedValue)][0]
+        padded = fv.format_spec is not None and '0' in ast.unparse(fv.format_spec)
+        return e.values[0].value, padded
+    if isinstance(e, ast.Call) and isinstance(e.func, ast.Attribute) and e.func.attr == 'format' and isinstance(e.func.value, ast.Constant) \
+            and isinstance(e.func.value.value, str) and '{' in e.func.value.value:
+        t = e.func.value.value
+        return t.split('{')[0], ':0' in t
+    return None
+
+
+def numbered_keys(ctx, obs, rule='SEQ'):
+    """a list stored as numbered sub-dictionaries (`model_0`, `model_1`, ... `model_10`) is read back by number: iterating the
+    stored mapping by sorted / stored key order is lexicographic (`model_10` < `model_2`) and permutes the list against the
+    arrays that are stored by position (evaluations, variances)"""
+    prog = ctx.prog
+    qw, qr = 'inference.result.Result.to_dict', 'inference.result.result_from_dict'
+    fw, fr = prog.func(qw), prog.func(qr)
+    wr = [(_fmt_prefix(n), n) for n in ast.walk(fw.node) if isinstance(n, (ast.BinOp, ast.JoinedStr, ast.Call))]
+    wr = [(p, n) for p, n in wr if p]
+    if not wr:
+        obs.unk(rule, qw, 'models are stored under numbered keys', 'no formatted key found in to_dict', where(prog, fw, fw.node))
+        return
+    (prefix, padded), wnode = wr[0]
+    rd = [(_fmt_prefix(n), n) for n in ast.walk(fr.node) if isinstance(n, (ast.BinOp, ast.JoinedStr, ast.Call))]
+    rd = [(p, n) for p, n in rd if p and p[0] == prefix]
+    con = f'the stored `{prefix}<i>` entries are read back in numeric order'
+    # readers that iterate the mapping instead of numbering the keys
+    iter_sites = []
+    for n in ast.walk(fr.node):
+        its = []
+        if isinstance(n, (ast.ListComp, ast.GeneratorExp)):
+            its = [g.iter for g in n.generators]
+        elif isinstance(n, ast.For):
+            its = [n.iter]
+        for it in its:
+            txt = norm(it)
+            if isinstance(it, ast.Call) and _leaf(it.func) in ('sorted', 'keys', 'values', 'items', 'list') and 'model' in txt.lower():
+                has_key = any(k.arg == 'key' for k in it.keywords)
+                iter_sites.append((it, has_key))
+    if rd:
+        in_range = any(isinstance(lp, (ast.For, ast.ListComp)) and any(x is rd[0][1] for x in ast.walk(lp))
+                       and 'range(' in norm(lp.iter if isinstance(lp, ast.For) else lp.generators[0].iter)
+                       for lp in ast.walk(fr.node) if isinstance(lp, (ast.For, ast.ListComp)))
+        obs.soft(in_range, rule, qr, con, 'key is formatted but not from a range index', f'`{norm(rd[0][1])}` inside a range loop',
+                 where(prog, fr, rd[0][1]))
+    elif iter_sites and not padded:
+        it, has_key = iter_sites[0]
+        if has_key:
+            obs.unk(rule, qr, con, f'`{norm(it)[:70]}` sorts with a custom key (not evaluated)', where(prog, fr, it))
+        else:
+            obs.bad(rule, qr, con, f'`{norm(it)[:70]}` walks the stored mapping in string / storage order: with 11 or more models '
+                    f'`{prefix}10` comes before `{prefix}2` (written unpadded by `{norm(wnode)}`), so the loaded models are permuted '
+                    f'against evaluations and variances', where(prog, fr, it))
+    else:
+        obs.unk(rule, qr, con, 'neither a numbered key nor an iteration over the stored mapping was recognised', where(prog, fr, fr.node))
